@@ -238,8 +238,15 @@ partial def visitFieldDef (fd : FieldDef) : V MField :=
       | some (.length _ _) => addDiag fd.start.line "LengthOfField can only be declared in the root packet"
       | _ => pure ()
     let s ← get
+    -- FieldMap / MatchFields are filled in only when the inline object has a match field
+    let mfs := subs.foldl (fun (mfs : List (String × List MPair)) f =>
+      match f.attr.bind (s.attrs[·]?) with
+      | some (.match_ (some k) _ pairs) => (mfs.filter (·.1 ≠ k)) ++ [(k, pairs)]
+      | _ => mfs) []
+    let fmap := if mfs.isEmpty then [] else (subs.map (·.name)).eraseDups
     let pid := s.ipackets.size
-    set { s with ipackets := s.ipackets.push { name := name.text, root := false, fields := subs, line := (rep.getD name).line } }
+    set { s with ipackets := s.ipackets.push { name := name.text, root := false, fields := subs, fieldMap := fmap, matchFields := mfs,
+                                               line := (rep.getD name).line } }
     let a ← newAttr (.object true name.text (.inline pid))
     pure { name := name.text, attr := some a, rep := rep.isSome, line := (rep.getD name).line }
   | .len d => do
